@@ -92,7 +92,7 @@ theorem buildChain_head (o : Oracle) (fuel : Nat) (g : NextGroup) (input : Toks)
         exact ⟨m0, tail0, ar, hmem0, hdef0, har, by rw [heq, hc', hctor]⟩
 
 /-- the arity row of the initial value names the `initial` constructor (a fact of the extracted table) -/
-theorem arity_initial : ∀ ar, arityOf .initial = some ar → ar.ctor = .initial := by
+theorem arity_initial_ctor : ∀ ar, arityOf .initial = some ar → ar.ctor = .initial := by
   intro ar h
   have : arityOf .initial = some ⟨.initial, 1, false, .expr⟩ := by decide
   rw [this] at h
@@ -132,7 +132,7 @@ theorem parseItems_head (o : Oracle) : ∀ (fuel : Nat) (input : Toks) (bs : Lis
             obtain ⟨m, tail, ar, hmem, hdef, har, hctor⟩ :=
               buildChain_head o _ _ _ _ _ _ _ _ _ hb (by intro _; simp) (by simp)
             simp only [List.nil_append] at hmem
-            exact ⟨m, tail, hmem, hdef, by rw [hctor]; exact arity_initial ar har⟩
+            exact ⟨m, tail, hmem, hdef, by rw [hctor]; exact arity_initial_ctor ar har⟩
 
 /-- **Every branch of every program the parser accepts starts with its initial value.** -/
 theorem parse_first_initial (o : Oracle) (input : Toks) (p : Input) (h : parseMacroInput o input = .ok p) :
